@@ -600,7 +600,7 @@ def compile_assign(
 @pattern_macro(((3, 12), "deftype"), [maybe(type_params), SYM, FORM])
 def compile_deftype(compiler, expr, root, tp, name, value):
     return asty.TypeAlias(expr,
-       name = asty.Name(name, id = mangle(name), ctx = ast.Store()),
+       name = asty.Name(name, id = mangle(compiler._nonconst(name)), ctx = ast.Store()),
        value = compiler.compile(value).force_expr,
         **digest_type_params(compiler, tp))
 
